@@ -178,7 +178,7 @@ def check(run: Run) -> None:
     # 4. indentation
     for t in indent_family(run, cfg["indent"]):
         add(t, "exec", "indent")
-    for c in gens.indent(run):
+    for c in gens.indent(run, light=True):
         add(c["src"], "exec", "indent.tla:" + c["outcome"])
     for c in gens.fmode(run):
         if c["outcome"] == "ok":
